@@ -47,14 +47,35 @@ impl MarkdownEventsReader {
         self.blocks_stack.last_mut().expect("to have element")
     }
 
-    pub fn read(&mut self, content: &str) -> DocumentBlocks {
-        let mut iter = Parser::new_ext(
-            content,
+    // The events of the text. The parser itself can panic on rare inputs (its wiki-link handling
+    // does on "![[a]|b](c)]]"): one such note must not take the library or the server down, so
+    // the text is parsed again without wiki links, and as a last resort kept as one paragraph.
+    fn events(content: &str) -> Vec<(pulldown_cmark::Event<'_>, Range<usize>)> {
+        let parse = |options: Options| {
+            std::panic::catch_unwind(|| {
+                Parser::new_ext(content, options)
+                    .into_offset_iter()
+                    .collect::<Vec<_>>()
+            })
+        };
+
+        parse(
             Options::ENABLE_YAML_STYLE_METADATA_BLOCKS
                 | Options::ENABLE_WIKILINKS
                 | Options::ENABLE_TABLES,
         )
-        .into_offset_iter();
+        .or_else(|_| parse(Options::ENABLE_YAML_STYLE_METADATA_BLOCKS | Options::ENABLE_TABLES))
+        .unwrap_or_else(|_| {
+            vec![
+                (Start(Tag::Paragraph), 0..content.len()),
+                (Text(content.into()), 0..content.len()),
+                (End(TagEnd::Paragraph), 0..content.len()),
+            ]
+        })
+    }
+
+    pub fn read(&mut self, content: &str) -> DocumentBlocks {
+        let mut iter = Self::events(content).into_iter();
         self.line_starts = line_starts(content);
         self.content = content.to_string();
 
